@@ -304,6 +304,40 @@ def register(gen, T):
         out.append(f"def floatPartsFloatOps : Nat := {casts}\n")
         out.append(f"def floatPartsCallSites : Nat := {calls}\n")
         out.append(f"def floatPartsCalledWithParts : Bool := {'true' if callarg else 'false'}\n")
+        # ---- token_intermediate: the dispatch on the first byte and the numeric arm (float first, integer exactly on
+        #      OtherTokenBytes) — the shape `tokenStep` of Model/Lexer.lean and `token_numeric_dispatch` are written against
+        tbody = fn_body(lexer, "token_intermediate")
+        _, tarms_text, _ = first_match(tbody, r'^input\.first\(\)$')
+        tarms = match_arms(tarms_text)
+        dispatch = []
+        for pats, guard, result in tarms:
+            dispatch.append(" | ".join(normws(p) for p in pats) + (" if " + normws(guard) if guard else ""))
+        def arm_steps(result, shapes):
+            r = result.strip()
+            inner = r[1:-1] if r.startswith('{') and matching(r, 0) == len(r) - 1 else r
+            res = []
+            for st in statements(inner):
+                tag = None
+                for name, pat in shapes:
+                    if re.fullmatch(pat, st):
+                        tag = name
+                        break
+                res.append(tag if tag else "other:" + st[:70].replace('"', "'").replace('\\', '/'))
+            return res
+        numeric_shapes = [("floatElseIntOnOtherTokenBytes",
+                           r"(TAIL )?match literal_float\(input\) \{ Ok\(ok\) => Ok\(ok\), "
+                           r"Err\(LexErrorContext\(rest, LexerErrorReason::OtherTokenBytes\)\) => \{ "
+                           r"debug_assert_eq!\(input\.len\(\), rest\.len\(\)\); literal_int\(input\) \},? err => err,? \}")]
+        numeric_steps = arm_steps(tarms[0][2], numeric_shapes) if tarms else []
+        word_steps = arm_steps(tarms[1][2], [("anyWord", r"TAIL any_word\(input\)")]) if len(tarms) > 1 else []
+        none_steps = arm_steps(tarms[-1][2], [("endOfStream", r"TAIL end_of_stream\(\)")]) if tarms else []
+        out.append("\n/-- `token_intermediate`: the patterns of `match input.first()` in order, and the top-level statements of the\n"
+                   "digit arm, the word arm and the `None` arm (anything not recognised is `other:<text>`): a numeral goes to\n"
+                   "`literal_float` first and to `literal_int` exactly when that answers `OtherTokenBytes`, with nothing in front -/\n")
+        out.append("def dispatchPatterns : List String := " + T.lean_list(T.lean_str(x) for x in dispatch) + "\n")
+        out.append("def numericArmSteps : List String := " + T.lean_list(T.lean_str(x) for x in numeric_steps) + "\n")
+        out.append("def wordArmSteps : List String := " + T.lean_list(T.lean_str(x) for x in word_steps) + "\n")
+        out.append("def noneArmSteps : List String := " + T.lean_list(T.lean_str(x) for x in none_steps) + "\n")
         out.append(T.footer("LexTables"))
         return "".join(out)
 
